@@ -48,8 +48,7 @@ def scopeJson (r : Node) : Json :=
               ("owned", ids (owned r)),
               ("owned_walk", ids (ownedWalk r)),
               ("classify", symsJson (classify r)),
-              ("good_all", Json.bool (goodRoot false r)),
-              ("good_sym", Json.bool (goodRoot true r))]
+              ("good", Json.bool (goodRoot r))]
 
 def dispatch (f : String) (j : Json) : Option Json :=
   match f with
